@@ -33,7 +33,7 @@ REQUIRED = {"reporter.tables_match_census": {"quick": 800, "thorough": 40000},
             "conservation.sum_equals_elements": {"quick": 3000, "thorough": 150000},
             "collector.delegation_form_counts_match_census": {"quick": 800, "thorough": 40000},
             "process.summary_counts_scenarios_as_the_model": {"quick": 8, "thorough": 150}}
-REQUIRED_SEEN = {"scenario_status_counted": ["passed", "failed", "error", "hook_error", "skipped", "untested"],
+REQUIRED_SEEN = {"examples_tables": ["rows_added_at_run_time"], "scenario_status_counted": ["passed", "failed", "error", "hook_error", "skipped", "untested"],
                  "format_printed": FORMATS, "feature_titles": ["unique", "duplicate"], "scenario_title_class": ["format_metacharacters"], "junit_reporting": ["command_line", "configuration_file", "off"],
                  "interim_summary": ["printed_from_after_feature"]}
 NSHARDS = {"quick": 16, "thorough": 16}
@@ -281,7 +281,10 @@ def run(spec, mon):
     n = 60 if tier == "quick" else 3000
     for i in range(n):
         gen = {"outcomes": OUTCOMES + ["abort"], "weights": {"abort": 0.3}} if i % 6 == 0 else {}
-        case = RB.gen_case(rng, gen=gen, p_stop=0.3, p_dry=0.12, p_user_skip=0.1, p_names=0.1)
+        grow = i % 6 == 3
+        if grow:
+            gen = {"p_outline": 0.8, "max_examples": 3, "p_nonpass": 0.5, "p_empty_examples": 0.0, "max_rows": 2}
+        case = RB.gen_case(rng, gen=gen, p_stop=0.3 if not grow else 0.0, p_dry=0.12, p_user_skip=0.1, p_names=0.1)
         if i % 4 == 1:
             # scenario titles with characters that mean something to %-formatting / str.format / templates: a title is text
             def decorate(c):
@@ -313,6 +316,23 @@ def run(spec, mon):
                     context.add_cleanup(bad_cleanup)
             kw["hook_plugins"] = [plug]
             case = dict(case, cleanup_plan={"register_in": target})
+        if grow:
+            # Examples rows added at run time (what behave.contrib.csv_table_from_file does, or table.add_row() in before_feature):
+            # copies of existing rows; the added rows get line numbers that run into what follows the table in the file, so
+            # DIFFERENT scenarios may share a location -- each of them is a scenario of its own for the summary
+            from behave.model import ScenarioOutline as _SO
+
+            def grow_tables(state, context, name, elem, tag):
+                if name == "before_feature":
+                    for x in elem.walk_scenarios(with_outlines=True):
+                        if isinstance(x, _SO):
+                            for ex in x.examples:
+                                if ex.table is not None and ex.table.rows:
+                                    for _ in range(3):
+                                        ex.table.add_row(list(ex.table.rows[0].cells))
+            kw.setdefault("hook_plugins", []).append(grow_tables)
+            case = dict(case, examples_rows_added_in_before_feature=3)
+            mon.seen("examples_tables", "rows_added_at_run_time")
         reps = []
         feats_abs = case["program"]["features"]
         if i % 5 == 2 and len(feats_abs) >= 2 and not case["program"].get("user_skip"):
